@@ -131,7 +131,8 @@ class Canon:
         assoc = s.ContextAssociation
         assoc = getattr(assoc, 'value', assoc)
         return [self.h(s.Handle), self.h(s.DescriptorHandle), s.StateVersion, s.DescriptorVersion, assoc,
-                s.BindingMdibVersion, s.UnbindingMdibVersion, self.payload(s, nsh)]
+                s.BindingMdibVersion, s.UnbindingMdibVersion, self.payload(s, nsh),
+                s.BindingStartTime is not None, s.BindingEndTime is not None]
 
     def any_state(self, s, nsh):
         return self.cstate(s, nsh) if s.is_context_state else self.state(s, nsh)
